@@ -8,6 +8,9 @@ import traceback
 
 import vlib
 
+sys.path.insert(0, vlib.REPO)
+os.environ.setdefault('MPLBACKEND', 'Agg')
+
 
 class Ctx:
     def __init__(self, prop, tier, seed):
